@@ -207,6 +207,80 @@ impl Domain for NodeDomain {
                     format!("live {}", s.live.iter().map(|(id, a)| format!("{}:{}", id, addr_num(a))).collect::<Vec<_>>().join(","))
                 }
             },
+            // ------------------------------------------------ real nodes (C15/C06: the wiring around the selector)
+            "realnodes" => {
+                // realnodes <n> <mode>: n real DatacakeNodes (chitchat membership over loopback, DCAwareSelector). mode 1: every node
+                // listens on 0.0.0.0:<port> and advertises 127.0.0.1:<port> (the usual production layout); mode 0: both the same.
+                // Every node then asks its own selector for every level, three times: a selection must never contain the node's own
+                // public address, a duplicate or a non-member, and One/Two/Three have exactly that many nodes.
+                use datacake_node::{ConnectionConfig, DatacakeNodeBuilder};
+                let n = p_u64(t[1]) as usize;
+                let mode = p_u64(t[2]);
+                let res: Result<Vec<String>, String> = runtime().block_on(async move {
+                    let publics: Vec<SocketAddr> = (0..n).map(|_| crate::rpc::free_addr()).collect();
+                    let mut nodes = Vec::new();
+                    for (i, p) in publics.iter().enumerate() {
+                        let listen: SocketAddr = if mode == 1 { ([0, 0, 0, 0], p.port()).into() } else { *p };
+                        let seeds = publics.iter().filter(|a| *a != p).map(|a| a.to_string()).collect::<Vec<_>>();
+                        let cfg = ConnectionConfig::new(listen, *p, seeds);
+                        let node = DatacakeNodeBuilder::<DCAwareSelector>::new((i + 1) as u8, cfg).connect().await.map_err(|e| e.to_string())?;
+                        nodes.push(node);
+                    }
+                    for (i, node) in nodes.iter().enumerate() {
+                        let peers = (1..=n as u8).filter(|id| *id != (i + 1) as u8).collect::<Vec<_>>();
+                        node.wait_for_nodes(&peers, Duration::from_secs(20)).await.map_err(|e| e.to_string())?;
+                    }
+                    tokio::time::sleep(Duration::from_millis(600)).await;
+                    let mut bad = Vec::new();
+                    for (i, node) in nodes.iter().enumerate() {
+                        for lvl in [Consistency::One, Consistency::Two, Consistency::Three, Consistency::Quorum, Consistency::LocalQuorum, Consistency::All, Consistency::EachQuorum] {
+                            for _ in 0..3 {
+                                match node.select_nodes(lvl).await {
+                                    Ok(sel) => {
+                                        let v: Vec<SocketAddr> = sel.iter().copied().collect();
+                                        if v.contains(&publics[i]) {
+                                            bad.push(format!("node{}:{:?}:own-address-selected", i + 1, lvl));
+                                        }
+                                        let mut d = v.clone();
+                                        d.sort();
+                                        d.dedup();
+                                        if d.len() != v.len() {
+                                            bad.push(format!("node{}:{:?}:duplicate", i + 1, lvl));
+                                        }
+                                        if v.iter().any(|a| !publics.contains(a)) {
+                                            bad.push(format!("node{}:{:?}:non-member", i + 1, lvl));
+                                        }
+                                        let want = match lvl { Consistency::One => Some(1), Consistency::Two => Some(2), Consistency::Three => Some(3), _ => None };
+                                        if let Some(w) = want {
+                                            if v.len() != w {
+                                                bad.push(format!("node{}:{:?}:{}-nodes", i + 1, lvl, v.len()));
+                                            }
+                                        }
+                                    },
+                                    Err(ConsistencyError::NotEnoughNodes { .. }) => {
+                                        let want = match lvl { Consistency::One => 1, Consistency::Two => 2, Consistency::Three => 3, _ => 0 };
+                                        if want > 0 && n - 1 >= want {
+                                            bad.push(format!("node{}:{:?}:not-enough-with-{}-peers", i + 1, lvl, n - 1));
+                                        }
+                                    },
+                                    Err(e) => bad.push(format!("node{}:{:?}:{}", i + 1, lvl, e.to_string().split_whitespace().next().unwrap_or("err"))),
+                                }
+                            }
+                        }
+                    }
+                    for node in nodes {
+                        node.shutdown().await;
+                    }
+                    bad.sort();
+                    bad.dedup();
+                    Ok(bad)
+                });
+                match res {
+                    Ok(bad) if bad.is_empty() => "real ok".to_string(),
+                    Ok(bad) => format!("real BAD {}", bad.join(",")),
+                    Err(e) => format!("real start-failed {}", e.split_whitespace().take(4).collect::<Vec<_>>().join("_")),
+                }
+            },
             // ------------------------------------------------ clock (C11)
             "clk-init" => {
                 // clk-init <node> <wall>
